@@ -75,8 +75,33 @@ class _PushbackReader(io.RawIOBase):
         return readinto(buffer)  # type: ignore[no-any-return]
 
 
+MAX_READ_SIZE = 1 << 20
+
+
+class _ChunkedReader:
+    """
+    View of a stream whose read(size) never asks for more than MAX_READ_SIZE at once.
+
+    The length of a frame comes from the input itself. A buffered stream asked for
+    that many bytes in one call allocates them up front, however few bytes follow.
+    """
+
+    def __init__(self, inp: IO[bytes]) -> None:
+        self._inp = inp
+
+    def read(self, size: int = -1) -> bytes:
+        if size < 0:
+            return self._inp.read()
+        chunks = []
+        while size > 0 and (chunk := self._inp.read(min(size, MAX_READ_SIZE))):
+            chunks.append(chunk)
+            size -= len(chunk)
+        return b"".join(chunks)
+
+
 def frame_iterator(inp: IO[bytes]) -> Generator[jelly.RdfStreamFrame]:
-    while frame := parse_length_prefixed(jelly.RdfStreamFrame, inp):
+    reader = _ChunkedReader(inp)
+    while frame := parse_length_prefixed(jelly.RdfStreamFrame, reader):  # type: ignore[arg-type]
         yield frame
 
 
